@@ -14,6 +14,24 @@ repo = args[args.index("--repo") + 1] if "--repo" in args else "/repo"
 seed = int(os.environ.get("VERIF_SEED", "0"))
 t0 = time.time()
 if "--replay" in args:
+    rpath = args[args.index("--replay") + 1]
+    try:
+        rec = json.load(open(rpath))
+    except Exception:
+        rec = {}
+    if rec.get("kind") == "bounded-standin" and rec.get("script"):
+        # a failure found by a bounded native post-check: run the same script with the recorded bound and seed on the tree given now
+        q = subprocess.run(["/venv/bin/python", os.path.join(V, rec["script"]), "--repo", repo, "--n", str(rec.get("n", 10)), "--seed", str(rec.get("seed", 0))], capture_output=True, text=True, timeout=3000)
+        lines = [l for l in q.stdout.strip().splitlines() if l.startswith("{")]
+        r = json.loads(lines[-1]) if lines else dict(error=(q.stderr or q.stdout)[-400:])
+        fails = r.get("failures", [])
+        if isinstance(fails, dict):
+            fails = fails.get(rec.get("key"), []) + fails.get("CRASH", [])
+        print(json.dumps(dict(rerun=rec.get("rerun"), failures=fails[:3], error=r.get("error")), indent=1))
+        if fails:
+            print("VIOLATION property=%s replay=%s" % (prop, rpath))
+            sys.exit(1)
+        sys.exit(0)
     gd = V
     cmd = ["python3-vt", "-c", "import sys; sys.path.insert(0,'.'); from pyvc.driver import main; main()"] + args
     sys.exit(subprocess.run(cmd, cwd=V).returncode)
@@ -75,7 +93,7 @@ if "--only" not in args:
         if fails:
             os.makedirs(os.path.join(V, "replays", prop), exist_ok=True)
             rp = os.path.join(V, "replays", prop, "bounded_%s.json" % os.path.basename(pc["script"])[:-3])
-            json.dump(dict(property=prop, obligation="bounded-standin:%s" % pc["script"], kind="bounded-standin", failing_input=fails[:3], native=dict(confirmed=True),
+            json.dump(dict(property=prop, obligation="bounded-standin:%s" % pc["script"], kind="bounded-standin", script=pc["script"], key=pc.get("key"), n=n, seed=seed, failing_input=fails[:3], native=dict(confirmed=True),
                            rerun="/venv/bin/python %s --repo %s --n %s --seed %s" % (os.path.join(V, pc["script"]), repo, n, seed)), open(rp, "w"), indent=1, default=str)
             violations.append("VIOLATION property=%s replay=%s" % (prop, rp))
 for v in violations:
